@@ -10,3 +10,4 @@ import RedkaModel.Props.C11views
 #print axioms Redka.Props.C11views.vkey_names_are_the_keyspace
 #print axioms Redka.Props.C11views.vlist_idx_is_the_api_index
 #print axioms Redka.Props.C11views.mem_numbered
+#print axioms Redka.Props.C11views.datetime_landmarks
